@@ -182,11 +182,11 @@ def isCkpt : Entry → Bool
 
 theorem applyEntry_md (s : Store) (e : Entry) : (applyEntry s e).md = metaApply s.md e := by
   cases e <;> simp only [applyEntry, metaApply]
-  split <;> (try split) <;> rfl
+  split <;> rfl
 
 theorem applyEntry_cache (s : Store) (e : Entry) : (applyEntry s e).cache = s.cache := by
   cases e <;> simp only [applyEntry]
-  split <;> (try split) <;> rfl
+  split <;> rfl
 
 theorem replay_md (s : Store) (es : List Entry) : (replay s es).md = replayMeta s.md es := by
   induction es generalizing s with
@@ -262,14 +262,18 @@ theorem delete_md (s : Store) (k : Bytes) :
 
 theorem putDurable_fst (s : Store) (k : Bytes) (v : Val) :
     (putDurable s k v).1 = if isCacheKey k then [] else
-      match v.emb with
-      | some vec => [.embSet (idxGetOrCreate s.vocab k).1 vec, .metaSet k v]
-      | none => [.metaSet k v] := by
+      if classify k = .embedding then
+        match v.emb with
+        | some vec => [.embSet (idxGetOrCreate s.vocab k).1 vec, .metaSet k v]
+        | none => [.metaSet k v]
+      else [.metaSet k v] := by
   unfold putDurable
   by_cases hc : isCacheKey k = true
   · simp [hc]
   · have hc0 : isCacheKey k = false := by simpa using hc
-    cases hv : v.emb <;> simp [hc0]
+    by_cases hk : classify k = .embedding
+    · cases hv : v.emb <;> simp [hc0, hk]
+    · simp [hc0, hk]
 
 theorem putDurable_snd_md (s : Store) (k : Bytes) (v : Val) :
     (putDurable s k v).2.md = if isCacheKey k then s.md else aset s.md k v := by
@@ -277,7 +281,9 @@ theorem putDurable_snd_md (s : Store) (k : Bytes) (v : Val) :
   by_cases hc : isCacheKey k = true
   · simp [hc, put_md]
   · have hc0 : isCacheKey k = false := by simpa using hc
-    cases hv : v.emb <;> simp [hc0, put_md]
+    by_cases hk : classify k = .embedding
+    · cases hv : v.emb <;> simp [hc0, hk, put_md]
+    · simp [hc0, hk, put_md]
 
 theorem deleteDurable_fst (s : Store) (k : Bytes) :
     (deleteDurable s k).1 = if isCacheKey k then [] else
@@ -311,7 +317,9 @@ theorem step_replay (s : Store) (op : Op) : replayMeta s.md (step s op).1 = spec
     by_cases hc : isCacheKey k = true
     · simp [hc, replayMeta]
     · have hc0 : isCacheKey k = false := by simpa using hc
-      cases hv : v.emb <;> simp [hc0, replayMeta, metaApply]
+      by_cases hk : classify k = .embedding
+      · cases hv : v.emb <;> simp [hc0, hk, replayMeta, metaApply]
+      · simp [hc0, hk, replayMeta, metaApply]
   | delete k =>
     simp only [step, specApply, deleteDurable_fst]
     by_cases hc : isCacheKey k = true
@@ -328,10 +336,12 @@ theorem step_shape (s : Store) (op : Op) :
     · left; simp [hc]
     · have hc0 : isCacheKey k = false := by simpa using hc
       right
-      cases hv : v.emb with
-      | none => exact ⟨[], .metaSet k v, by simp [hc0], by simp⟩
-      | some vec =>
-        exact ⟨[.embSet (idxGetOrCreate s.vocab k).1 vec], .metaSet k v, by simp [hc0], by simp [isNeutral]⟩
+      by_cases hk : classify k = .embedding
+      · cases hv : v.emb with
+        | none => exact ⟨[], .metaSet k v, by simp [hc0, hk], by simp⟩
+        | some vec =>
+          exact ⟨[.embSet (idxGetOrCreate s.vocab k).1 vec], .metaSet k v, by simp [hc0, hk], by simp [isNeutral]⟩
+      · exact ⟨[], .metaSet k v, by simp [hc0, hk], by simp⟩
   | delete k =>
     simp only [step, deleteDurable_fst]
     by_cases hc : isCacheKey k = true
@@ -349,7 +359,9 @@ theorem step_plain (s : Store) (op : Op) :
     by_cases hc : isCacheKey k = true
     · simp [hc]
     · have hc0 : isCacheKey k = false := by simpa using hc
-      cases hv : v.emb <;> simp [hc0, isTx, isCkpt]
+      by_cases hk : classify k = .embedding
+      · cases hv : v.emb <;> simp [hc0, hk, isTx, isCkpt]
+      · simp [hc0, hk, isTx, isCkpt]
   | delete k =>
     simp only [step, deleteDurable_fst]
     by_cases hc : isCacheKey k = true
@@ -1147,18 +1159,24 @@ def SlabInv (s : Store) : Prop :=
   ∀ (k : Bytes) (id : Nat) (vec : Bytes), classify k = .embedding → idxGet s.vocab k = some id →
     aget s.slab id = some vec → ∃ v, aget s.md k = some v ∧ v.emb = some vec
 
+/-- a live index entry of an `emb:` key has its metadata record -/
+def IdxMd (s : Store) : Prop :=
+  ∀ (k : Bytes) (id : Nat), classify k = .embedding → idxGet s.vocab k = some id → (aget s.md k).isSome = true
+
 structure Good (s : Store) : Prop where
   nodup : LiveNodup s.vocab
   slab : SlabInv s
+  idxmd : IdxMd s
 
 /-- the full observable image of the durable key classes agrees with a key → value map -/
 def FullEq (r : Store) (m : List (Bytes × Val)) : Prop :=
   ∀ k, isCacheKey k = false → get r k = aget m k
 
 theorem good_empty : Good Store.empty := by
-  refine ⟨?_, ?_⟩
+  refine ⟨?_, ?_, ?_⟩
   · intro i j k h; simp [Store.empty] at h
   · intro k id vec _ h; simp [Store.empty, idxGet, idxGetAux] at h
+  · intro k id _ h; simp [Store.empty, idxGet, idxGetAux] at h
 
 /-- **with the invariant, `get` is the metadata map for every durable key class** -/
 theorem good_get {s : Store} (hg : Good s) (k : Bytes) (hc : isCacheKey k = false) :
@@ -1186,10 +1204,13 @@ theorem good_fullEq {s : Store} (hg : Good s) {m : List (Bytes × Val)} (h : Met
 /-- `Good` does not look at the cache -/
 theorem good_of_eq {a b : Store} (hg : Good a) (h1 : b.vocab = a.vocab) (h2 : b.slab = a.slab)
     (h3 : b.md = a.md) : Good b := by
-  refine ⟨by rw [h1]; exact hg.nodup, ?_⟩
-  intro k id vec hk hi hs
-  rw [h1] at hi; rw [h2] at hs; rw [h3]
-  exact hg.slab k id vec hk hi hs
+  refine ⟨by rw [h1]; exact hg.nodup, ?_, ?_⟩
+  · intro k id vec hk hi hs
+    rw [h1] at hi; rw [h2] at hs; rw [h3]
+    exact hg.slab k id vec hk hi hs
+  · intro k id hk hi
+    rw [h1] at hi; rw [h3]
+    exact hg.idxmd k id hk hi
 
 theorem slabPut_get_self (sl : List (Nat × Bytes)) (id : Nat) (vec : Bytes) :
     aget (slabPut sl id vec) id = if dimOk vec then some vec else none := by
@@ -1242,7 +1263,7 @@ theorem putDurable_snd_emb (s : Store) (k : Bytes) (v : Val) (hk : classify k = 
     (putDurable s k v).2 = putEmb s k v := by
   have hc : isCacheKey k = false := by simp [isCacheKey, hk]
   unfold putDurable
-  simp only [hc]
+  simp only [hc, hk]
   cases hv : v.emb with
   | none => exact put_emb s k v hk
   | some vec =>
@@ -1253,24 +1274,24 @@ theorem putDurable_snd_emb (s : Store) (k : Bytes) (v : Val) (hk : classify k = 
 
 theorem putDurable_snd_plain (s : Store) (k : Bytes) (v : Val) (hk : classify k ≠ .embedding)
     (hc : isCacheKey k = false) :
-    (putDurable s k v).2 =
-      { s with md := aset s.md k v,
-               vocab := if v.emb.isSome then (idxGetOrCreate s.vocab k).2 else s.vocab } := by
+    (putDurable s k v).2 = { s with md := aset s.md k v } := by
   have hc' : classify k ≠ .cache := by simpa [isCacheKey] using hc
   unfold putDurable
-  simp only [hc]
-  cases hv : v.emb with
-  | none =>
-    show put s k v = _
-    unfold put
-    cases hk' : classify k <;> simp_all
-  | some vec =>
-    show put _ k v = _
-    unfold put
-    cases hk' : classify k <;> simp_all
+  simp only [hc, hk]
+  show put s k v = _
+  unfold put
+  cases hk' : classify k <;> simp_all
 
 theorem good_putEmb {s : Store} (hg : Good s) (k : Bytes) (v : Val) : Good (putEmb s k v) := by
-  refine ⟨liveNodup_getOrCreate hg.nodup k, ?_⟩
+  refine ⟨liveNodup_getOrCreate hg.nodup k, ?_, ?_⟩
+  rotate_left
+  · intro k1 id1 hk1 hi
+    simp only [putEmb] at hi ⊢
+    by_cases e : k = k1
+    · subst e; rw [aget_aset_eq]; rfl
+    · rw [idxGetOrCreate_get_ne _ _ _ e] at hi
+      rw [aget_aset_ne _ _ _ _ e]
+      exact hg.idxmd k1 id1 hk1 hi
   intro k1 id1 vec1 hk1 hi hs
   simp only [putEmb] at hi hs ⊢
   by_cases e : k = k1
@@ -1289,24 +1310,20 @@ theorem good_putEmb {s : Store} (hg : Good s) (k : Bytes) (v : Val) : Good (putE
     rw [aget_aset_ne _ _ _ _ e]
     exact hg.slab k1 id1 vec1 hk1 hi hs
 
-/-- a write to the metadata map of a key outside the `emb:` class, possibly allocating an id -/
-theorem good_plain_set {s : Store} (hg : Good s) (k : Bytes) (v : Val) (hk : classify k ≠ .embedding)
-    (b : Bool) :
-    Good { s with md := aset s.md k v, vocab := if b then (idxGetOrCreate s.vocab k).2 else s.vocab } := by
-  refine ⟨?_, ?_⟩
-  · simp only []
-    split
-    · exact liveNodup_getOrCreate hg.nodup k
-    · exact hg.nodup
+/-- a write to the metadata map of a key outside the `emb:` class: index and slab untouched -/
+theorem good_plain_set {s : Store} (hg : Good s) (k : Bytes) (v : Val) (hk : classify k ≠ .embedding) :
+    Good { s with md := aset s.md k v } := by
+  refine ⟨hg.nodup, ?_, ?_⟩
   · intro k1 id1 vec1 hk1 hi hs
     have e : k ≠ k1 := by intro h; subst h; exact hk hk1
     simp only [] at hi hs ⊢
     rw [aget_aset_ne _ _ _ _ e]
-    have hi' : idxGet s.vocab k1 = some id1 := by
-      split at hi
-      · rwa [idxGetOrCreate_get_ne _ _ _ e] at hi
-      · exact hi
-    exact hg.slab k1 id1 vec1 hk1 hi' hs
+    exact hg.slab k1 id1 vec1 hk1 hi hs
+  · intro k1 id1 hk1 hi
+    have e : k ≠ k1 := by intro h; subst h; exact hk hk1
+    simp only [] at hi ⊢
+    rw [aget_aset_ne _ _ _ _ e]
+    exact hg.idxmd k1 id1 hk1 hi
 
 theorem good_putDurable {s : Store} (hg : Good s) (k : Bytes) (v : Val) : Good (putDurable s k v).2 := by
   by_cases hc : isCacheKey k = true
@@ -1320,7 +1337,7 @@ theorem good_putDurable {s : Store} (hg : Good s) (k : Bytes) (v : Val) : Good (
     · rw [putDurable_snd_emb s k v hk]
       exact good_putEmb hg k v
     · rw [putDurable_snd_plain s k v hk hc0]
-      exact good_plain_set hg k v hk _
+      exact good_plain_set hg k v hk
 
 /-- what the three records of a delete do, normal form -/
 def delApplied (s : Store) (k : Bytes) : Store :=
@@ -1330,7 +1347,17 @@ def delApplied (s : Store) (k : Bytes) : Store :=
              | none => s.slab }
 
 theorem good_delApplied {s : Store} (hg : Good s) (k : Bytes) : Good (delApplied s k) := by
-  refine ⟨liveNodup_remove hg.nodup k, ?_⟩
+  refine ⟨liveNodup_remove hg.nodup k, ?_, ?_⟩
+  rotate_left
+  · intro k1 id1 hk1 hi
+    simp only [delApplied] at hi ⊢
+    by_cases e : k = k1
+    · subst e
+      rw [idxRemove_get_self _ _ hg.nodup] at hi
+      cases hi
+    · rw [idxRemove_get_ne _ _ _ e] at hi
+      rw [aget_aerase_ne _ _ _ e]
+      exact hg.idxmd k1 id1 hk1 hi
   intro k1 id1 vec1 hk1 hi hs
   simp only [delApplied] at hi hs ⊢
   by_cases e : k = k1
@@ -1390,12 +1417,17 @@ theorem good_delete {s : Store} (hg : Good s) (k : Bytes) : Good (delete s k).1 
     by_cases hk : classify k = .embedding
     · rw [delete_emb s k hk]; exact good_delApplied hg k
     · rw [delete_plain s k hk hc0]
-      refine ⟨hg.nodup, ?_⟩
-      intro k1 id1 vec1 hk1 hi hs
-      have e : k ≠ k1 := by intro h; subst h; exact hk hk1
-      simp only [] at hi hs ⊢
-      rw [aget_aerase_ne _ _ _ e]
-      exact hg.slab k1 id1 vec1 hk1 hi hs
+      refine ⟨hg.nodup, ?_, ?_⟩
+      · intro k1 id1 vec1 hk1 hi hs
+        have e : k ≠ k1 := by intro h; subst h; exact hk hk1
+        simp only [] at hi hs ⊢
+        rw [aget_aerase_ne _ _ _ e]
+        exact hg.slab k1 id1 vec1 hk1 hi hs
+      · intro k1 id1 hk1 hi
+        have e : k ≠ k1 := by intro h; subst h; exact hk hk1
+        simp only [] at hi ⊢
+        rw [aget_aerase_ne _ _ _ e]
+        exact hg.idxmd k1 id1 hk1 hi
 
 theorem step_delete_snd (s : Store) (k : Bytes) : (step s (.delete k)).2 = (delete s k).1 := by
   simp only [step, deleteDurable]; split <;> rfl
@@ -1414,24 +1446,21 @@ theorem good_runOps {s : Store} (hg : Good s) (ops : List Op) : Good (runOps s o
 
 theorem applyEntry_metaSet (s : Store) (k : Bytes) (v : Val) :
     applyEntry s (.metaSet k v) =
-      if classify k = .embedding ∨ v.emb.isSome then putEmb s k v else { s with md := aset s.md k v } := by
+      if classify k = .embedding then putEmb s k v else { s with md := aset s.md k v } := by
   simp only [applyEntry, putEmb, putSlab]
-  cases hv : v.emb with
-  | none =>
-    simp only [Option.isSome_none, Bool.false_eq_true, or_false]
-  | some vec => simp
+  split
+  · cases v.emb <;> rfl
+  · rfl
 
 theorem good_metaSet {s : Store} (hg : Good s) (k : Bytes) (v : Val) : Good (applyEntry s (.metaSet k v)) := by
   rw [applyEntry_metaSet]
   split
   · exact good_putEmb hg k v
-  · rename_i h
-    have hk : classify k ≠ .embedding := fun e => h (.inl e)
-    have := good_plain_set hg k v hk false
-    simpa using this
+  · rename_i hk
+    exact good_plain_set hg k v hk
 
 theorem good_embDel {s : Store} (hg : Good s) (id : Nat) : Good (applyEntry s (.embDel id)) := by
-  refine ⟨hg.nodup, ?_⟩
+  refine ⟨hg.nodup, ?_, fun k1 id1 hk1 hi => hg.idxmd k1 id1 hk1 hi⟩
   intro k1 id1 vec1 hk1 hi hs
   simp only [applyEntry] at hi hs ⊢
   by_cases e : id = id1
@@ -1440,7 +1469,14 @@ theorem good_embDel {s : Store} (hg : Good s) (id : Nat) : Good (applyEntry s (.
     exact hg.slab k1 id1 vec1 hk1 hi hs
 
 theorem good_entRemove {s : Store} (hg : Good s) (k : Bytes) : Good (applyEntry s (.entRemove k)) := by
-  refine ⟨liveNodup_remove hg.nodup k, ?_⟩
+  refine ⟨liveNodup_remove hg.nodup k, ?_, ?_⟩
+  rotate_left
+  · intro k1 id1 hk1 hi
+    simp only [applyEntry] at hi ⊢
+    by_cases e : k = k1
+    · subst e; rw [idxRemove_get_self _ _ hg.nodup] at hi; cases hi
+    · rw [idxRemove_get_ne _ _ _ e] at hi
+      exact hg.idxmd k1 id1 hk1 hi
   intro k1 id1 vec1 hk1 hi hs
   simp only [applyEntry] at hi hs ⊢
   by_cases e : k = k1
@@ -1451,7 +1487,14 @@ theorem good_entRemove {s : Store} (hg : Good s) (k : Bytes) : Good (applyEntry 
 /-- removing the metadata of a key that is not (or no longer) in the entity index -/
 theorem good_metaDel {s : Store} (hg : Good s) (k : Bytes)
     (h : classify k = .embedding → idxGet s.vocab k = none) : Good (applyEntry s (.metaDel k)) := by
-  refine ⟨hg.nodup, ?_⟩
+  refine ⟨hg.nodup, ?_, ?_⟩
+  rotate_left
+  · intro k1 id1 hk1 hi
+    simp only [applyEntry] at hi ⊢
+    by_cases e : k = k1
+    · subst e; rw [h hk1] at hi; cases hi
+    · rw [aget_aerase_ne _ _ _ e]
+      exact hg.idxmd k1 id1 hk1 hi
   intro k1 id1 vec1 hk1 hi hs
   simp only [applyEntry] at hi hs ⊢
   by_cases e : k = k1
@@ -1510,21 +1553,27 @@ theorem sim_step {P L : Store} (hP : Good P) (hL : Good L) (hs : Sim P L) (op : 
           replay P ((step L (.put k v)).1.take j) = applyEntry P (.metaSet k v) := by
         intro j
         simp only [step, putDurable_fst, hc0, Bool.false_eq_true, if_false]
-        cases hv : v.emb with
-        | none =>
-          simp only []
+        have hone : ∀ j, replay P ([Entry.metaSet k v].take j) = P ∨
+            replay P ([Entry.metaSet k v].take j) = applyEntry P (.metaSet k v) := by
+          intro j
           match j with
           | 0 => left; rfl
           | j + 1 => right; simp [replay]
-        | some vec =>
-          simp only []
-          match j with
-          | 0 => left; rfl
-          | 1 => left; simp [replay, applyEntry]
-          | j + 2 => right; simp [replay, applyEntry]
+        split
+        · cases hv : v.emb with
+          | none => exact hone j
+          | some vec =>
+            simp only []
+            match j with
+            | 0 => left; rfl
+            | 1 => left; simp [replay, applyEntry]
+            | j + 2 => right; simp [replay, applyEntry]
+        · exact hone j
       have hfull : replay P (step L (.put k v)).1 = applyEntry P (.metaSet k v) := by
         simp only [step, putDurable_fst, hc0, Bool.false_eq_true, if_false]
-        cases hv : v.emb <;> simp [replay, applyEntry, hv]
+        split
+        · cases hv : v.emb <;> simp [replay, applyEntry, hv]
+        · simp [replay]
       refine ⟨?_, hmd, ?_⟩
       · intro j
         rcases hrec j with h | h <;> rw [h]
@@ -1534,24 +1583,9 @@ theorem sim_step {P L : Store} (hP : Good P) (hL : Good L) (hs : Sim P L) (op : 
         rw [hfull, applyEntry_metaSet]
         simp only [step]
         by_cases hk : classify k = .embedding
-        · rw [putDurable_snd_emb L k v hk, if_pos (.inl hk), putEmb_live, putEmb_live, hs.live k1 hk1]
-        · have e : k ≠ k1 := by intro h; subst h; exact hk hk1
-          rw [putDurable_snd_plain L k v hk hc0]
-          simp only [hk, false_or]
-          have hP1 : ∀ b : Bool, (idxGet (if b = true then (idxGetOrCreate P.vocab k).2 else P.vocab) k1)
-              = idxGet P.vocab k1 := by
-            intro b; split
-            · exact idxGetOrCreate_get_ne _ _ _ e
-            · rfl
-          have hL1 : ∀ b : Bool, (idxGet (if b = true then (idxGetOrCreate L.vocab k).2 else L.vocab) k1)
-              = idxGet L.vocab k1 := by
-            intro b; split
-            · exact idxGetOrCreate_get_ne _ _ _ e
-            · rfl
-          rw [hL1]
-          split
-          · rw [putEmb_live]; simp [e, hs.live k1 hk1]
-          · exact hs.live k1 hk1
+        · rw [putDurable_snd_emb L k v hk, if_pos hk, putEmb_live, putEmb_live, hs.live k1 hk1]
+        · rw [putDurable_snd_plain L k v hk hc0, if_neg hk]
+          exact hs.live k1 hk1
   | delete k =>
     have h1 : (step L (.delete k)).1 = (deleteDurable L k).1 := rfl
     rw [step_delete_snd] at hmd ⊢
@@ -1633,6 +1667,254 @@ theorem good_replay_take {P L : Store} (hP : Good P) (hL : Good L) (hs : Sim P L
     · rw [List.take_append_of_le_length (by omega)]
       exact hpre i
 
+/-! #### every slab holds keys of its own class only; `scan` lists readable keys only -/
+
+/-- the metadata slab holds no `_cache:` key, the cache ring only `_cache:` keys, the entity index
+    only `emb:` keys (since the fix "only `emb:` keys get an entity-index entry") -/
+structure Classed (s : Store) : Prop where
+  md : ∀ p ∈ s.md, classify p.1 ≠ .cache
+  cache : ∀ p ∈ s.cache, classify p.1 = .cache
+  vocab : ∀ p ∈ s.vocab, classify p.1 = .embedding
+
+theorem classed_empty : Classed Store.empty :=
+  ⟨by simp [Store.empty], by simp [Store.empty], by simp [Store.empty]⟩
+
+section assoc2
+variable {α : Type _} {β : Type _} [DecidableEq α]
+
+theorem mem_aerase {m : List (α × β)} {k : α} {p : α × β} (h : p ∈ aerase m k) : p ∈ m :=
+  (List.mem_filter.mp h).1
+
+theorem mem_aset {m : List (α × β)} {k : α} {v : β} {p : α × β} (h : p ∈ aset m k v) :
+    p = (k, v) ∨ p ∈ m := by
+  simp only [aset, List.mem_cons] at h
+  rcases h with h | h
+  · exact .inl h
+  · exact .inr (mem_aerase h)
+
+theorem aget_isSome_of_mem {m : List (α × β)} {k : α} (h : k ∈ m.map (·.1)) :
+    (aget m k).isSome = true := by
+  induction m with
+  | nil => simp at h
+  | cons p m ih =>
+    obtain ⟨k', v⟩ := p
+    simp only [aget]
+    by_cases e : k' = k
+    · simp [e]
+    · simp only [e, if_false]
+      apply ih
+      simp only [List.map_cons, List.mem_cons] at h
+      rcases h with h | h
+      · exact absurd h.symm e
+      · exact h
+end assoc2
+
+theorem mem_idxGetOrCreate {v : List (Bytes × Bool)} {k : Bytes} {p : Bytes × Bool}
+    (h : p ∈ (idxGetOrCreate v k).2) : p ∈ v ∨ p = (k, true) := by
+  unfold idxGetOrCreate at h
+  cases hi : idxGet v k with
+  | some i => simp only [hi] at h; exact .inl h
+  | none => simpa [hi] using h
+
+theorem mem_idxRemove {v : List (Bytes × Bool)} {k : Bytes} {p : Bytes × Bool}
+    (h : p ∈ idxRemove v k) : p ∈ v ∨ p = (k, false) := by
+  unfold idxRemove at h
+  cases hi : idxGet v k with
+  | none => simp only [hi] at h; exact .inl h
+  | some i => simp only [hi] at h; exact List.mem_or_eq_of_mem_set h
+
+theorem classed_putEmb {s : Store} (hc : Classed s) (k : Bytes) (v : Val) (hk : classify k = .embedding) :
+    Classed (putEmb s k v) := by
+  refine ⟨?_, hc.cache, ?_⟩
+  · intro p hp
+    rcases mem_aset hp with h | h
+    · subst h; simp [hk]
+    · exact hc.md p h
+  · intro p hp
+    rcases mem_idxGetOrCreate hp with h | h
+    · exact hc.vocab p h
+    · subst h; exact hk
+
+theorem classed_md_set {s : Store} (hc : Classed s) (k : Bytes) (v : Val) (hk : classify k ≠ .cache) :
+    Classed { s with md := aset s.md k v } := by
+  refine ⟨?_, hc.cache, hc.vocab⟩
+  intro p hp
+  rcases mem_aset hp with h | h
+  · subst h; exact hk
+  · exact hc.md p h
+
+theorem classed_md_erase {s : Store} (hc : Classed s) (k : Bytes) :
+    Classed { s with md := aerase s.md k } :=
+  ⟨fun p hp => hc.md p (mem_aerase hp), hc.cache, hc.vocab⟩
+
+theorem classed_putDurable {s : Store} (hc : Classed s) (k : Bytes) (v : Val) : Classed (putDurable s k v).2 := by
+  by_cases hcache : isCacheKey k = true
+  · have hk : classify k = .cache := by simpa [isCacheKey] using hcache
+    have : (putDurable s k v).2 = { s with cache := aset s.cache k v } := by
+      simp [putDurable, hcache, put, hk]
+    rw [this]
+    refine ⟨hc.md, ?_, hc.vocab⟩
+    intro p hp
+    rcases mem_aset hp with h | h
+    · subst h; exact hk
+    · exact hc.cache p h
+  · have hc0 : isCacheKey k = false := by simpa using hcache
+    have hk' : classify k ≠ .cache := by simpa [isCacheKey] using hc0
+    by_cases hk : classify k = .embedding
+    · rw [putDurable_snd_emb s k v hk]
+      exact classed_putEmb hc k v hk
+    · rw [putDurable_snd_plain s k v hk hc0]
+      exact classed_md_set hc k v hk'
+
+theorem classed_delApplied {s : Store} (hc : Classed s) (k : Bytes) : Classed (delApplied s k) := by
+  refine ⟨fun p hp => hc.md p (mem_aerase hp), hc.cache, ?_⟩
+  intro p hp
+  simp only [delApplied] at hp
+  rcases mem_idxRemove hp with h | h
+  · exact hc.vocab p h
+  · -- the entry is rewritten only when the key is in the index
+    subst h
+    cases hi : idxGet s.vocab k with
+    | none => simp only [idxRemove, hi] at hp; exact hc.vocab _ hp
+    | some i => exact hc.vocab (k, true) (List.mem_of_getElem? (idxGet_some hi))
+
+theorem classed_delete {s : Store} (hc : Classed s) (k : Bytes) : Classed (delete s k).1 := by
+  by_cases hcache : isCacheKey k = true
+  · have hk : classify k = .cache := by simpa [isCacheKey] using hcache
+    unfold delete
+    split
+    · exact hc
+    · simp only [hk]
+      exact ⟨hc.md, fun p hp => hc.cache p (mem_aerase hp), hc.vocab⟩
+  · have hc0 : isCacheKey k = false := by simpa using hcache
+    by_cases hk : classify k = .embedding
+    · rw [delete_emb s k hk]; exact classed_delApplied hc k
+    · rw [delete_plain s k hk hc0]; exact classed_md_erase hc k
+
+theorem classed_step {s : Store} (hc : Classed s) (op : Op) : Classed (step s op).2 := by
+  cases op with
+  | put k v => exact classed_putDurable hc k v
+  | delete k => rw [step_delete_snd]; exact classed_delete hc k
+
+theorem classed_runOps {s : Store} (hc : Classed s) (ops : List Op) : Classed (runOps s ops).2 := by
+  induction ops generalizing s with
+  | nil => exact hc
+  | cons op ops ih => rw [runOps_cons]; exact ih (classed_step hc op)
+
+/-- records the writer can log: no `MetadataSet` of a `_cache:` key, no `EntityCreate` -/
+def EntryOk : Entry → Prop
+  | .metaSet k _ => classify k ≠ .cache
+  | .entCreate _ _ => False
+  | _ => True
+
+theorem classed_applyEntry {s : Store} (hc : Classed s) (e : Entry) (he : EntryOk e) :
+    Classed (applyEntry s e) := by
+  cases e with
+  | metaSet k v =>
+    rw [applyEntry_metaSet]
+    split
+    · rename_i hk; exact classed_putEmb hc k v hk
+    · exact classed_md_set hc k v he
+  | metaDel k => exact classed_md_erase hc k
+  | embSet id vec => exact hc
+  | embDel id => exact ⟨hc.md, hc.cache, hc.vocab⟩
+  | entCreate k id => exact absurd he (by simp [EntryOk])
+  | entRemove k =>
+    refine ⟨hc.md, hc.cache, ?_⟩
+    intro p hp
+    simp only [applyEntry] at hp
+    rcases mem_idxRemove hp with h | h
+    · exact hc.vocab p h
+    · subst h
+      cases hi : idxGet s.vocab k with
+      | none => simp only [idxRemove, hi] at hp; exact hc.vocab _ hp
+      | some i => exact hc.vocab (k, true) (List.mem_of_getElem? (idxGet_some hi))
+  | txBegin t => exact hc
+  | txCommit t => exact hc
+  | txAbort t => exact hc
+  | checkpoint id => exact hc
+
+theorem classed_replay {s : Store} (hc : Classed s) (es : List Entry) (he : ∀ e ∈ es, EntryOk e) :
+    Classed (replay s es) := by
+  induction es generalizing s with
+  | nil => exact hc
+  | cons e es ih =>
+    rw [replay_cons]
+    exact ih (classed_applyEntry hc e (he e (by simp))) (fun x hx => he x (by simp [hx]))
+
+theorem step_entryOk (s : Store) (op : Op) : ∀ e ∈ (step s op).1, EntryOk e := by
+  cases op with
+  | put k v =>
+    simp only [step, putDurable_fst]
+    by_cases hc : isCacheKey k = true
+    · simp [hc]
+    · have hc0 : isCacheKey k = false := by simpa using hc
+      have hk' : classify k ≠ .cache := by simpa [isCacheKey] using hc0
+      by_cases hk : classify k = .embedding
+      · cases hv : v.emb <;> simp [hc0, hk, EntryOk]
+      · simp [hc0, hk, EntryOk, hk']
+  | delete k =>
+    simp only [step, deleteDurable_fst]
+    by_cases hc : isCacheKey k = true
+    · simp [hc]
+    · have hc0 : isCacheKey k = false := by simpa using hc
+      cases hi : idxGet s.vocab k <;> simp [hc0, EntryOk]
+
+theorem runOps_entryOk (s : Store) (ops : List Op) : ∀ e ∈ (runOps s ops).1, EntryOk e := by
+  induction ops generalizing s with
+  | nil => simp [runOps_nil]
+  | cons op ops ih =>
+    intro e he
+    rw [runOps_cons] at he
+    rcases List.mem_append.mp he with h | h
+    · exact step_entryOk s op e h
+    · exact ih _ e h
+
+/-- **with the two invariants every key `scan` lists is readable** -/
+theorem scan_readable {s : Store} (hg : Good s) (hc : Classed s) :
+    ∀ k ∈ scanKeys s, (get s k).isSome = true := by
+  intro k hk
+  simp only [scanKeys, List.mem_append] at hk
+  rcases hk with (hk | hk) | hk
+  · -- a key of the metadata slab
+    have hmd := aget_isSome_of_mem hk
+    obtain ⟨p, hp, rfl⟩ := List.mem_map.mp hk
+    have hnc := hc.md p hp
+    unfold get
+    cases hcl : classify p.1 <;> simp only [] <;> try (first | exact hmd | exact absurd hcl hnc)
+    cases hi : idxGet s.vocab p.1 with
+    | none => exact hmd
+    | some id =>
+      simp only []
+      cases hs : aget s.slab id with
+      | none => exact hmd
+      | some vec => rfl
+  · -- a live entry of the entity index
+    obtain ⟨p, hp, rfl⟩ := List.mem_map.mp hk
+    obtain ⟨hpv, hlive⟩ := List.mem_filter.mp hp
+    obtain ⟨k, b⟩ := p
+    simp only [] at hlive
+    subst hlive
+    have hcl : classify k = .embedding := hc.vocab _ hpv
+    have hsome : ∃ id, idxGet s.vocab k = some id := by
+      cases hi : idxGet s.vocab k with
+      | some id => exact ⟨id, rfl⟩
+      | none => exact absurd hpv (idxGet_none_iff.mp hi)
+    obtain ⟨id, hi⟩ := hsome
+    have hmd := hg.idxmd k id hcl hi
+    unfold get
+    simp only [hcl, hi]
+    cases hs : aget s.slab id with
+    | none => exact hmd
+    | some vec => rfl
+  · -- a key of the cache ring
+    have hca := aget_isSome_of_mem hk
+    obtain ⟨p, hp, rfl⟩ := List.mem_map.mp hk
+    have hcl := hc.cache p hp
+    unfold get
+    simp only [hcl]
+    exact hca
+
 /-! #### the property for the full observable image -/
 
 /-- **The property for one crash of a fresh store, full observable image**: the recovery function
@@ -1646,6 +1928,16 @@ def RecoverIsPrefixFull (rec : Option Store → Bytes → Except RecErr Store) (
     rec none ((logBytes crc enc (runOps Store.empty ops).1).take n) = .ok r ∧
     FullEq r (specRun [] (ops.take k)) ∧
     ∀ a, a ≤ ops.length → (logBytes crc enc (runOps Store.empty (ops.take a)).1).length ≤ n → a ≤ k
+
+/-- the same property of the writer BEFORE the fix "only `emb:` keys get an entity-index entry"
+    (`runOpsOld`: `put_durable` allocated an entity id and logged an `EmbeddingSet` record for any
+    non-cache key whose value carries a vector).  Only used by `…_witness` theorems. -/
+def RecoverIsPrefixFullOld (rec : Option Store → Bytes → Except RecErr Store) (crc : Bytes → Nat)
+    (enc : Entry → Bytes) (ops : List Op) (n : Nat) : Prop :=
+  ∃ k r, k ≤ ops.length ∧
+    rec none ((logBytes crc enc (runOpsOld Store.empty ops).1).take n) = .ok r ∧
+    FullEq r (specRun [] (ops.take k)) ∧
+    ∀ a, a ≤ ops.length → (logBytes crc enc (runOpsOld Store.empty (ops.take a)).1).length ≤ n → a ≤ k
 
 /-- The crash model of `Reach` without the two crash points "snapshot in place, checkpoint marker
     absent or incomplete" (for those the full-image statement is not proved; the metadata-map
@@ -1749,6 +2041,40 @@ theorem reachF_good (hc : CodecOK crc enc dec) {snap : Option Store} {f : Bytes}
     injection hr' with hr'
     subst hr'
     exact good_runOps (ih mem0 hr) ops
+
+theorem reachF_classed (hc : CodecOK crc enc dec) {snap : Option Store} {f : Bytes} {tr : Trace}
+    (h : ReachF crc enc dec snap f tr) : ∀ r, recover crc dec snap f = .ok r → Classed r := by
+  induction h with
+  | init =>
+    intro r hr
+    rw [recover_nil] at hr
+    injection hr with hr
+    subst hr
+    exact classed_empty
+  | @round snap' f' tr' mem0 ops acked n hprev hr hfit hn _ _ ih =>
+    intro r hr'
+    obtain ⟨H, -, hinv⟩ := reach_inv hc (reachF_reach hprev)
+    obtain ⟨i, hi⟩ := recover_round hc hinv mem0 hr ops n hfit hn
+    rw [hi] at hr'
+    injection hr' with hr'
+    subst hr'
+    exact classed_replay (ih mem0 hr) _ (fun e he => runOps_entryOk mem0 ops e (List.mem_of_mem_take he))
+  | @ckptMarked snap' f' tr' mem0 ops id hprev hr hfit hid ih =>
+    intro r hr'
+    obtain ⟨H, -, hinv⟩ := reach_inv hc (reachF_reach hprev)
+    obtain ⟨S, hopen, hSfit, hSno, -, -⟩ := inv_open hc hinv hr
+    have hplain := runOps_plain mem0 ops
+    rw [hopen, ← logBytes_append, recover_marked hc _ _ id (hSfit.append hfit)
+      (hSno.append (fun e he => (hplain e he).1)) hid] at hr'
+    injection hr' with hr'
+    subst hr'
+    exact classed_runOps (ih mem0 hr) ops
+  | ckptDone mem0 ops _ hr _ ih =>
+    intro r hr'
+    rw [recover_nil] at hr'
+    injection hr' with hr'
+    subst hr'
+    exact classed_runOps (ih mem0 hr) ops
 
 end reachF
 
